@@ -19,11 +19,14 @@
       elements than the packet has bytes (msgpack_alloc_bounded; false on the pinned tree, orig_alloc_unbounded), and
       msgp.Skip and the MessagePack batch loop terminate by consuming input (msgpack_skip_terminates,
       parse_terminates_partial; TL and Protobuf loops: see the comment there).
+    * TCP framing: deframe ∘ frame = id for all bodies within the bound, and arbitrary chunking of the stream does not
+      matter when the read buffer holds header + largest body (tcp_*); false for a smaller buffer (witness).
     * MessagePack / Protobuf round trips for ALL batches are NOT proved (only the statement is kept, see the comment
       at the end); cross-format agreement is proved for TL and shown on concrete witnesses for the other two; the
       correspondence and the direct oracle cover them on generated batches. JSON is outside the model.
 -/
 import SH.Lemmas.Wire
+import SH.Gen.C13
 
 namespace SH.Props.C13
 open SH.Wire
@@ -236,6 +239,62 @@ theorem parse_terminates_partial (v : Variant) (hv : v.boundAlloc = true) (pkt :
 /-- non-vacuity: the fixed variant satisfies the hypothesis, and the loop does run several times on real input -/
 example : Variant.fixed.boundAlloc = true := rfl
 example : (batchLoop (mpBatch .fixed) .msgpack 100 ([0x80, 0x80, 0x81, 0xa1, 120, 0xc0]) [] 0).err = none := by decide
+
+/-! ## TCP / unix stream framing (receiver_tcp.go receiveLoop): no frame is lost, nothing hangs -/
+
+/-- the constant the compiler sees (regenerated from /repo on every run): a silent change fails here -/
+example : SH.Gen.C13.maxTCPFrameBody = 65535 := by decide
+
+/-- Deframing the concatenation of frames gives back exactly the bodies, for all bodies within the size bound. -/
+theorem tcp_deframe_frames (maxBody : Nat) (bodies : List Bytes) (hm : ∀ b ∈ bodies, b.length ≤ maxBody)
+    (h32 : ∀ b ∈ bodies, b.length < 2 ^ 32) : deframe maxBody (catMap frame bodies) = (bodies, [], false) :=
+  S_frames maxBody bodies hm h32
+
+/-- Arbitrary chunking of the stream does not matter: with a read buffer of at least 4 + maxBody bytes the receive loop,
+    fed ANY byte stream in ANY write/read chunks, hands to parse exactly the frames of the whole stream, ends with a
+    framing error iff the stream contains a length header above the bound — and never stalls. -/
+theorem tcp_chunking_irrelevant (maxBody bufSize : Nat) (hb : maxBody + 4 ≤ bufSize) (chunks : List Bytes) :
+    (runConn maxBody bufSize chunks).frames = (deframe maxBody chunks.flatten).1 ∧
+    (runConn maxBody bufSize chunks).ending =
+      some (if (deframe maxBody chunks.flatten).2.2 then ConnEnd.framing else ConnEnd.eof) := by
+  have h := foldl_after maxBody bufSize hb chunks {} [] (after_init maxBody)
+  simp only [List.nil_append] at h
+  obtain ⟨hfr, hok, herr⟩ := h
+  rw [deframe_eq_S]
+  unfold runConn
+  simp only []
+  cases hflag : (S maxBody chunks.flatten).2.2 with
+  | true =>
+    have he := herr hflag
+    simp [he, hfr]
+  | false =>
+    obtain ⟨hn, _⟩ := hok hflag
+    simp [hn, hfr]
+
+/-- Every valid frame is delivered, in order, whatever the chunking — in particular frames of exactly the largest
+    allowed size (65533..65535 bytes with the real constant) — and the connection ends normally (no hang). -/
+theorem tcp_frames_delivered (bodies : List Bytes) (hm : ∀ b ∈ bodies, b.length ≤ SH.Gen.C13.maxTCPFrameBody)
+    (chunks : List Bytes) (hc : chunks.flatten = catMap frame bodies) :
+    (runConn SH.Gen.C13.maxTCPFrameBody (4 + SH.Gen.C13.maxTCPFrameBody) chunks).frames = bodies ∧
+    (runConn SH.Gen.C13.maxTCPFrameBody (4 + SH.Gen.C13.maxTCPFrameBody) chunks).ending = some .eof := by
+  have h := tcp_chunking_irrelevant SH.Gen.C13.maxTCPFrameBody (4 + SH.Gen.C13.maxTCPFrameBody) (by omega) chunks
+  have hd := tcp_deframe_frames SH.Gen.C13.maxTCPFrameBody bodies hm
+    (fun b hb => by
+      have h1 := hm b hb
+      have h2 : SH.Gen.C13.maxTCPFrameBody = 65535 := (by decide)
+      omega)
+  rw [hc, hd] at h
+  simpa using h
+
+/-- non-vacuity, and the failure mode of a read buffer that is smaller than header + largest body (seeded bug C13-3,
+    scaled down: bound 7, buffer 8 instead of 11): a 5-byte body within the bound never fits, Read is called with an
+    empty slice forever — the model reports `stall`, nothing is delivered, later frames are lost. -/
+theorem tcp_small_buffer_stalls :
+    (runConn 7 8 [frame [1, 2, 3, 4, 5], frame [9]]).ending = some .stall ∧
+    (runConn 7 8 [frame [1, 2, 3, 4, 5], frame [9]]).frames = [] ∧
+    (runConn 7 11 [frame [1, 2, 3, 4, 5], frame [9]]).frames = [[1, 2, 3, 4, 5], [9]] ∧
+    (runConn 7 11 [[5, 0], [0, 0, 1, 2], [3, 4, 5, 1, 0, 0], [0, 9]]).frames = [[1, 2, 3, 4, 5], [9]] ∧
+    (runConn 7 11 [frame [1], le 4 8 ++ [0, 0], frame [2]]).ending = some .framing := by decide
 
 /-! ## Protobuf: unpacked `unique` (F11) -/
 
